@@ -64,7 +64,24 @@ def guards : Guards :=
     shared := fileGuarded graph Gen.CacheSites.sites Gen.CacheSites.siteFuncs
       "pkg/storage/storagewrappers/sharediterator/shared_iterator_datastore.go" }
 
-theorem guards_hold : guards = { query := true, iter := true, shared := true } := by decide
+theorem fileGuarded_of_all (g : Graph) (sites : List Site) (sf : List Nat) (file : String)
+    (h : allGuarded g sites sf = true)
+    (hne : ((sites.zip sf).filter (·.1.2.1 = file)).isEmpty = false) : fileGuarded g sites sf file = true := by
+  unfold allGuarded at h
+  simp only [Bool.and_eq_true] at h
+  unfold fileGuarded
+  simp only [hne, Bool.not_false, Bool.true_and]
+  rw [List.all_eq_true] at h ⊢
+  intro x hx
+  exact h.2 x (List.mem_filter.mp hx).1
+
+theorem guards_hold : guards = { query := true, iter := true, shared := true } := by
+  have h := all_read_sites_guarded
+  unfold guards
+  rw [fileGuarded_of_all _ _ _ _ h (by decide), fileGuarded_of_all _ _ _ _ h (by decide),
+      fileGuarded_of_all _ _ _ _ h (by decide), fileGuarded_of_all _ _ _ _ h (by decide),
+      fileGuarded_of_all _ _ _ _ h (by decide), fileGuarded_of_all _ _ _ _ h (by decide)]
+  rfl
 
 /-- `DetermineInvalidationTime` / `InvalidateIfNeeded` are called for non-HIGHER requests only -/
 theorem triggers_guarded :
